@@ -308,7 +308,7 @@ class Recorder(object):
             return iter(keys)
         if how == 'tuple':
             return tuple(keys)
-        if how == 'view' and len(set(ks)) == len(ks):
+        if how == 'view' and len(set(ks)) == len(ks):       # (dict.fromkeys keeps the order of the list)
             try:
                 return dict.fromkeys(keys).keys()
             except TypeError:
